@@ -827,9 +827,21 @@ func genC08(g *G, sc *Scenario, tier string) {
 		c.Pool = full
 		spec := map[string]any{}
 		x := g.r.Float64()
+		// the HTTP run operation lets a client run a job as either type, whatever its trigger says
+		runType := jobType
+		if g.P(0.25) {
+			runType = g.Pick([]string{"incremental", "fullsync"})
+		}
+		pts := []string{"pipeline.incr.afterSink", "pipeline.incr.afterToken"}
+		if runType == "fullsync" {
+			pts = []string{"pipeline.full.afterStart", "pipeline.full.afterBatch", "pipeline.full.beforeEnd", "pipeline.full.afterEnd"}
+		}
+		points = pts
 		switch {
-		case x < 0.2:
+		case x < 0.12:
 			spec["sinkFailAt"] = g.Range(1, 4)
+		case x < 0.24:
+			spec["sinkStoreFailAt"] = g.Range(1, 4)
 		case x < 0.35:
 			spec["killPoint"], spec["killAt"] = g.Pick(points), g.Range(1, 3)
 		case x < 0.6:
@@ -838,10 +850,14 @@ func genC08(g *G, sc *Scenario, tier string) {
 		if g.P(0.15) {
 			sc.Ops = append(sc.Ops, Op{K: "restart"})
 		}
-		sc.Ops = append(sc.Ops, Op{K: "run", S: "job1", DS: jobType, M: spec})
+		sc.Ops = append(sc.Ops, Op{K: "run", S: "job1", DS: runType, M: spec})
 		if len(spec) > 0 {
 			// a clean run after the faulty one must restore equality, and a further one adds nothing
-			sc.Ops = append(sc.Ops, Op{K: "run", S: "job1", DS: jobType, N: 1})
+			next := runType
+			if g.P(0.4) {
+				next = "incremental"
+			}
+			sc.Ops = append(sc.Ops, Op{K: "run", S: "job1", DS: next, N: 1})
 		} else if g.P(0.5) {
 			sc.Ops[len(sc.Ops)-1].N = 1
 		}
